@@ -127,7 +127,9 @@ def run(R):
             if g.spath.endswith("GroupAggregator::update_value"):
                 for c in g.calls:
                     sn = short(c.name)
-                    if ACCUMULATING.search(sn) and not sn.endswith("::sort"):
+                    # only what is reached through the receiver (self) is aggregator state; a local accumulator is not
+                    on_self = bool(c.args) and any(o.kind == "arg" and o.arg == 1 for o in F.origins(g, c.args[0], depth=8))
+                    if ACCUMULATING.search(sn) and not sn.endswith("::sort") and on_self:
                         R.violation("C11.repeat", "update_value|" + sn.split("::")[-1],
                                     "GroupAggregator::update_value (result phase) mutates aggregator state with %s" % sn, [c.loc()])
                 R.ok("C11.repeat", "update_value", "only the idempotent in-place sort touches aggregator state", g.loc())
